@@ -169,6 +169,21 @@ def step (st : St) (args : List String) : St × String :=
         let (o, st') := invoke i.m 3000000 f as st0
         (assocSet st id { i with st := st' }, observe i.m o st')
     | _, _, _, _ => (st, "bad-op")
+  | "callimp" :: id :: k :: fuel :: as =>
+    -- a re-exported import called through the API: function index k itself (no guest code runs)
+    match parseNat id, parseNat k, parseNat fuel, as.mapM parseHex with
+    | some id, some k, some fuel, some as =>
+      match assocGet st id with
+      | none => (st, "bad-op")
+      | some i =>
+        if k < i.m.imports.length then
+          let ft := funcType i.m k
+          let as := (ft.params.zip as).map (fun (p, v) => v % 2 ^ p.bits)
+          let st0 := { i.st with globals := i.st.globals.set! 0 fuel }
+          let (o, st') := invoke i.m 3000000 k as st0
+          (assocSet st id { i with st := st' }, observe i.m o st')
+        else (st, "bad-op")
+    | _, _, _, _ => (st, "bad-op")
   | ["drop", id] =>
     match parseNat id with
     | some id => (st.filter (·.1 != id), "ok")
